@@ -176,7 +176,15 @@ def check(tier: str) -> Report:
     def viol(clause, sig, detail):
         rep.add_violation(clause, sig, detail)
 
-    for c in cases:
+    import os
+    import time as _t
+    old_tz = os.environ.get("TZ")
+    zones = ["UTC", "JST-9", "EST5"]
+    for ci_, c in enumerate(cases):
+        # HTTP-dates are absolute: the process time zone must not matter
+        if hasattr(_t, "tzset"):
+            os.environ["TZ"] = zones[ci_ % len(zones)] if c["v"].startswith("date") else "UTC"
+            _t.tzset()
         src, shape, cat, expect = c["src"], c["shape"], c["v"], c["expect"]
         if src == "attr" and cat in ("int", "float", "true", "negint", "bigint", "nan", "inf", "none", "list", "obj"):
             members = [(attr_value(cat)[0], attr_value(cat)[1])]
@@ -229,6 +237,12 @@ def check(tier: str) -> Report:
             cells.add((src, shape, cat))
             if len(samples) < 6 and rng.random() < 0.02:
                 samples.append(dict(desc, expected=expect, hint=repr(hint)))
+    if hasattr(_t, "tzset"):
+        if old_tz is None:
+            os.environ.pop("TZ", None)
+        else:
+            os.environ["TZ"] = old_tz
+        _t.tzset()
     # ---- honouring ---------------------------------------------------------------
     honour_eval = 0
     real_uniform = strategies.random.uniform
